@@ -8,7 +8,7 @@ import itertools
 import typing
 from fractions import Fraction
 
-from ..consteval import ConstEval, EnumMember, FuncEval, NotConst, Sym
+from ..consteval import ConstEval, EnumMember, FuncEval, NotConst, Raised, Sym
 from ..core import AnalysisError, ClassInfo, FuncInfo, Index, own_nodes, parent, short, unparse
 
 ISD = "ttconv.isd:ISD"
